@@ -1,6 +1,7 @@
 package main
 
 import (
+	"strconv"
 	"bytes"
 	"context"
 	"encoding/json"
@@ -25,6 +26,10 @@ type C13Param struct {
 	Schema  *GSchema `json:"schema"` // carries the default
 	Present bool     `json:"present"`
 	Value   string   `json:"value"`
+	// PathLevel: declared on the path item only (still in effect).  Shadow: the path item declares a
+	// parameter with the same name and location and this schema, which the operation-level one overrides.
+	PathLevel bool     `json:"path_level,omitempty"`
+	Shadow    *GSchema `json:"shadow,omitempty"`
 }
 
 type C13Case struct {
@@ -63,13 +68,22 @@ func (c *C13Case) build() (*routers.Route, func() *http.Request) {
 		s := c07Requirements(c.Security)
 		op.Security = &s
 	}
+	var itemParams openapi3.Parameters
 	for _, p := range c.Params {
-		op.Parameters = append(op.Parameters, &openapi3.ParameterRef{Value: &openapi3.Parameter{Name: p.Name, In: p.In, Explode: p.Explode, Schema: p.Schema.ToOpenAPI().NewRef()}})
+		pr := &openapi3.ParameterRef{Value: &openapi3.Parameter{Name: p.Name, In: p.In, Explode: p.Explode, Schema: p.Schema.ToOpenAPI().NewRef()}}
+		if p.PathLevel {
+			itemParams = append(itemParams, pr)
+			continue
+		}
+		op.Parameters = append(op.Parameters, pr)
+		if p.Shadow != nil {
+			itemParams = append(itemParams, &openapi3.ParameterRef{Value: &openapi3.Parameter{Name: p.Name, In: p.In, Explode: p.Explode, Schema: p.Shadow.ToOpenAPI().NewRef()}})
+		}
 	}
 	if c.BodySchema != nil {
 		op.RequestBody = &openapi3.RequestBodyRef{Value: openapi3.NewRequestBody().WithContent(openapi3.Content{"application/json": openapi3.NewMediaType().WithSchema(c.BodySchema.ToOpenAPI())})}
 	}
-	item := &openapi3.PathItem{Post: op}
+	item := &openapi3.PathItem{Post: op, Parameters: itemParams}
 	doc.Paths.Set("/d", item)
 	route := &routers.Route{Spec: doc, Path: "/d", PathItem: item, Method: "POST", Operation: op}
 	mk := func() *http.Request {
@@ -222,6 +236,8 @@ func runC13(c *C13Case) C13Obs {
 				}
 				if !got {
 					o.Violations = append(o.Violations, "default-not-populated:"+p.In)
+				} else if !c13DefaultIs(p.Schema.Default, o, p) {
+					o.Violations = append(o.Violations, "populated-value-is-not-the-default:"+p.In)
 				}
 			}
 		}
@@ -229,6 +245,32 @@ func runC13(c *C13Case) C13Obs {
 	sort.Strings(o.Violations)
 	o.Violations = dedup(o.Violations)
 	return o
+}
+
+// the forwarded request carries exactly the (scalar) default of the parameter in effect, once
+func c13DefaultIs(d any, o C13Obs, p C13Param) bool {
+	var vals []string
+	switch p.In {
+	case "query":
+		vals = o.QueryAfter[p.Name]
+	case "header":
+		vals = o.HeaderAfter[http.CanonicalHeaderKey(p.Name)]
+	case "cookie":
+		vals = []string{o.CookieAfter[p.Name]}
+	}
+	switch x := d.(type) {
+	case string:
+		return len(vals) == 1 && vals[0] == x
+	case bool:
+		return len(vals) == 1 && vals[0] == fmt.Sprint(x)
+	case float64:
+		if len(vals) != 1 {
+			return false
+		}
+		f, err := strconv.ParseFloat(vals[0], 64)
+		return err == nil && f == x
+	}
+	return true // arrays: see the recorded finding on array defaults
 }
 
 // which kinds of parameter defaults a case has (part of the finding signature)
@@ -458,6 +500,27 @@ func c13Random(r *Rng) C13Case {
 			if spec.in == "query" && r.Chance(50) {
 				p.Explode = bp(r.Bool())
 			}
+		}
+		switch r.Intn(6) {
+		case 0:
+			p.PathLevel = true
+		case 1, 2:
+			// the same parameter on the path item, with another default (or none)
+			sh := *p.Schema
+			switch d := p.Schema.Default.(type) {
+			case float64:
+				sh.Default = d + 1
+			case string:
+				sh.Default = d + "-path"
+			case bool:
+				sh.Default = !d
+			default:
+				sh.Default = nil
+			}
+			if r.Chance(20) {
+				sh.Default = nil
+			}
+			p.Shadow = &sh
 		}
 		c.Params = append(c.Params, p)
 	}
